@@ -141,6 +141,29 @@ def build():
     fs.append(Fmt("TWIN", "twin_hex_hexexp", radix=16, base=16, eradix=16))
     fs.append(Fmt("TWIN", "twin_dec_hexexp", radix=10, base=10, eradix=16))
     fs.append(Fmt("TWIN", "twin_prefix_suffix", prefix="x", suffix="h", radix=16, base=2, eradix=10))
+    # INVALID: one format per class of invalidity (never used for parsing values: every entry
+    # point must answer with a configuration error)
+    inv = [
+        ("inv_mantissa_radix_1", dict(radix=1)), ("inv_mantissa_radix_37", dict(radix=37)),
+        ("inv_exponent_base_37", dict(base=37)), ("inv_exponent_radix_40", dict(eradix=40)),
+        ("inv_sep_digit", dict(sep="1", sepflags={("integer", "internal"): True})),
+        ("inv_sep_plus", dict(sep="+", sepflags={("integer", "internal"): True})),
+        ("inv_prefix_digit", dict(prefix="7")), ("inv_suffix_minus", dict(suffix="-")),
+        ("inv_prefix_eq_suffix", dict(prefix="x", suffix="x")),
+        ("inv_sep_eq_prefix", dict(sep="x", prefix="x", sepflags={("integer", "internal"): True})),
+        ("inv_exponent_flags", dict(flags=set(STANDARD_ON) | {"no_exponent_notation", "required_exponent_notation"})),
+        ("inv_mantissa_sign", dict(flags=set(STANDARD_ON) | {"no_positive_mantissa_sign", "required_mantissa_sign"})),
+        ("inv_exponent_sign", dict(flags=set(STANDARD_ON) | {"no_positive_exponent_sign", "required_exponent_sign"})),
+        ("inv_special", dict(flags=set(STANDARD_ON) | {"no_special", "case_sensitive_special"})),
+        ("inv_special_sep", dict(flags=set(STANDARD_ON) | {"no_special"}, sep="_", special_sep=True)),
+        ("inv_int_consecutive", dict(sep="_", sepflags={("integer", "consecutive"): True})),
+        ("inv_frac_consecutive", dict(sep="_", sepflags={("fraction", "consecutive"): True})),
+        ("inv_exp_consecutive", dict(sep="_", sepflags={("exponent", "consecutive"): True})),
+    ]
+    for name, kw in inv:
+        f = Fmt("INVALID", name, **kw)
+        f.force_invalid = True
+        fs.append(f)
     # RADIX
     for r in (2, 3, 8, 16, 36):
         fs.append(Fmt("RADIX", f"radix{r}", radix=r))
@@ -159,7 +182,7 @@ def main():
     fs = build()
     names = set()
     for f in fs:
-        assert f.valid(), f.name
+        assert f.valid() or getattr(f, "force_invalid", False), f.name
         assert f.name not in names, f.name
         names.add(f.name)
     os.makedirs(OUT, exist_ok=True)
@@ -170,7 +193,8 @@ def main():
     rows = []
     for f in fs:
         cfg = ""
-        if f.needs_radix: cfg = '#[cfg(feature = "radix")] '
+        if getattr(f, "force_invalid", False): cfg = '#[cfg(feature = "power-of-two")] ' if f.needs_p2 else ""
+        elif f.needs_radix: cfg = '#[cfg(feature = "radix")] '
         elif f.needs_p2: cfg = '#[cfg(feature = "power-of-two")] '
         rows.append(f'    {cfg}v.push(cat_entry!("{f.group}", {f.desc()}, {f.builder()}));')
     for name, p2 in prebuilt_names():
